@@ -191,6 +191,12 @@ def _seq_empty(ctx, args, kwargs):
     return SSeq(z3.Empty(RSEQ), like.elem, ("empty",))
 
 
+def _proved(ctx, args, kwargs):
+    label = args[1] if len(args) > 1 else kwargs.get("label", "step")
+    ctx.prove("%s/step#%s" % (ctx.proof_label, label), ctx.as_goal(args[0]))
+    return True
+
+
 def _use_lemma(ctx, args, kwargs):
     fn, s = args
     ctx.used_contracts.add("lemma:" + fn.__name__)
@@ -200,6 +206,7 @@ def _use_lemma(ctx, args, kwargs):
 
 ModelsMixin.FUNCTION_MODELS.update({
     "pyvc.spec.use_lemma": _use_lemma,
+    "pyvc.spec.proved": _proved,
     "pyvc.spec.utf8_valid": (lambda ctx, args, kwargs: S.utf8_valid(args[0]) if not is_sym(args[0]) else
                              __import__("pyvc.values", fromlist=["SBool"]).SBool(
                                  __import__("pyvc.models", fromlist=["UTF8_OK"]).UTF8_OK(args[0].term))),
